@@ -4,6 +4,7 @@ check on both and say how the pair is decided.
 
     tools/eval_pairs.py            all 40 pairs
     tools/eval_pairs.py C05 C12    the pairs of these properties
+    tools/eval_pairs.py --round r5 [Cxx ...]   the held-out fifth round (seeded/Cxx-r5-n, refactors/H-Cxx-n)
 
 A pair is DECIDED when the bad version is reported (VIOLATION by some property; `target` says whether the seeded property
 itself reports it) and the good version is not (silent or inconclusive).  Other outcomes: HONEST (both inconclusive in the
@@ -18,11 +19,16 @@ import eval_refactors  # noqa: E402
 
 
 def main() -> int:
-    props = sys.argv[1:]
+    args = sys.argv[1:]
+    rnd = 'r4'
+    if args[:1] == ['--round']:
+        rnd, args = args[1], args[2:]
+    tag = {'r4': 'G', 'r5': 'H'}[rnd]
+    props = args
     pairs = []
-    for b in sorted((HERE / 'seeded').glob('C??-r4-?')):
+    for b in sorted((HERE / 'seeded').glob(f'C??-{rnd}-?')):
         pid, n = b.name[:3], b.name[-1]
-        g = HERE / 'refactors' / f'G-{pid}-{n}'
+        g = HERE / 'refactors' / f'{tag}-{pid}-{n}'
         if g.exists() and (not props or pid in props):
             pairs.append((pid, n, b, g))
     cands = [p for (_a, _b, b, g) in pairs for p in (b, g)]
